@@ -8,8 +8,6 @@ pub struct Counting;
 thread_local! {
     static TRACK: Cell<bool> = const { Cell::new(false) };
     static LIVE: Cell<i64> = const { Cell::new(0) };
-    static PEAK: Cell<i64> = const { Cell::new(0) };
-    static ALLOCS: Cell<u64> = const { Cell::new(0) };
 }
 
 #[inline]
@@ -19,14 +17,6 @@ fn bump(delta: i64) {
             let _ = LIVE.try_with(|l| {
                 let v = l.get() + delta;
                 l.set(v);
-                if delta > 0 {
-                    let _ = PEAK.try_with(|p| {
-                        if v > p.get() {
-                            p.set(v)
-                        }
-                    });
-                    let _ = ALLOCS.try_with(|a| a.set(a.get() + 1));
-                }
             });
         }
     });
@@ -74,19 +64,7 @@ pub fn tracked<T>(f: impl FnOnce() -> T) -> T {
 pub fn reset() {
     TRACK.with(|t| t.set(false));
     LIVE.with(|l| l.set(0));
-    PEAK.with(|p| p.set(0));
-    ALLOCS.with(|a| a.set(0));
 }
 pub fn live() -> i64 {
     LIVE.with(|l| l.get())
-}
-pub fn peak() -> i64 {
-    PEAK.with(|p| p.get())
-}
-pub fn reset_peak() {
-    let v = live();
-    PEAK.with(|p| p.set(v));
-}
-pub fn allocs() -> u64 {
-    ALLOCS.with(|a| a.get())
 }
